@@ -584,8 +584,10 @@ func (vm *Thread) run() {
 
 			if !err.IsUndefined() {
 				vm.pop()
+				// rethrow either unwinds to a catch in this run loop (keep executing there)
+				// or stops the VM with a panic, so the loop must not be left here
 				vm.rethrow(err, vm.BuildStackTracePrepend(stackTrace))
-				return
+				continue
 			}
 
 			vm.replace(result)
@@ -602,8 +604,10 @@ func (vm *Thread) run() {
 			stackTrace := promise.stackTrace
 			if !err.IsUndefined() {
 				vm.pop()
+				// rethrow either unwinds to a catch in this run loop (keep executing there)
+				// or stops the VM with a panic, so the loop must not be left here
 				vm.rethrow(err, vm.BuildStackTracePrepend(stackTrace))
-				return
+				continue
 			}
 
 			vm.replace(result)
@@ -613,8 +617,10 @@ func (vm *Thread) run() {
 			result, stackTrace, err := promise.AwaitSync()
 			if !err.IsUndefined() {
 				vm.pop()
+				// rethrow either unwinds to a catch in this run loop (keep executing there)
+				// or stops the VM with a panic, so the loop must not be left here
 				vm.rethrow(err, vm.BuildStackTracePrepend(stackTrace))
-				return
+				continue
 			}
 
 			vm.replace(result)
